@@ -35,12 +35,12 @@ Lemma src_rectangle_new_at_origin_eq s : src_Rectangle_new_at_origin s = R (P 0 
 Proof. reflexivity. Qed.
 
 (* ---- RoundedRectangle::contains = RoundedRectangleContains::new(self).contains(point) ---- *)
-Lemma src_rr_contains_eq r p : rr_ok r ->
+Lemma src_rr_contains_eq r p : src_rr_ok r ->
   let c := src_RoundedRectangleContains_new r in
-  probe_ok (EllipseQuadrant_center_2x (RoundedRectangleContains_top_left c)) p ->
-  probe_ok (EllipseQuadrant_center_2x (RoundedRectangleContains_top_right c)) p ->
-  probe_ok (EllipseQuadrant_center_2x (RoundedRectangleContains_bottom_left c)) p ->
-  probe_ok (EllipseQuadrant_center_2x (RoundedRectangleContains_bottom_right c)) p ->
+  src_probe_ok (EllipseQuadrant_center_2x (RoundedRectangleContains_top_left c)) p ->
+  src_probe_ok (EllipseQuadrant_center_2x (RoundedRectangleContains_top_right c)) p ->
+  src_probe_ok (EllipseQuadrant_center_2x (RoundedRectangleContains_bottom_left c)) p ->
+  src_probe_ok (EllipseQuadrant_center_2x (RoundedRectangleContains_bottom_right c)) p ->
   src_RoundedRectangle_contains r p = rr_contains r p.
 Proof.
   intros Hr c H1 H2 H3 H4. unfold src_RoundedRectangle_contains, rr_contains. cbv zeta. fold c.
